@@ -150,11 +150,37 @@ def fields(line):
     return dict(w.split("=", 1) for w in line.split() if "=" in w)
 
 
+# branches of the receiver automaton (tags of Driver/PcpDrv.lean covRun) taken by the model runs of this check run
+BRANCHES = {}
+EXPECTED_BRANCHES = (
+    ["enter>start", "enter>done"] +
+    ["re:A", "re:E:notdir", "re:E:path", "re:E:trunc", "re:E:times", "re:E:respLost", "re:E:respBad", "re:E:read"] +
+    ["re:E:screwup:" + w for w in ("newline", "lost", "mtimeSec", "mtimeUsec", "atimeSec", "atimeUsec", "expected",
+                                   "badMode", "modeDelim", "sizeDelim", "badName")] +
+    ["rec:msg", "rec:stop", "rec:E-top", "rec:E-nested", "E:sets-times", "E:no-times", "rec:bad", "rec:T-bad", "rec:T",
+     "rec:T-twice", "rec:name-rejected", "C:on-dir", "C:on-file", "C:new", "D:on-dir", "D:on-file", "D:new", "targ:dir",
+     "targ:name", "ctl:with-times", "ctl:no-times", "depth:1", "depth:2", "depth:3", "depth:4", "size:<0", "size:0",
+     "size:<buf", "size:<=cnt", "size:>cnt", "data:flush", "data:block", "data:end>resp", "line:buffer-full",
+     "line>start", "line>data", "line>resp", "line>done", "start:newline", "resp:ok", "resp:bad", "wr:no", "wr:yes",
+     "wr:displayed", "resp>start", "resp>done", "done:input-ignored", "eof:start", "eof:line", "eof:data", "eof:resp",
+     "eof:done", "eof-depth:0", "eof-depth:1", "eof-depth:2", "eof-depth:3", "eof-depth:4"])
+
+
+def branch_report(dist, exclude=()):
+    """evidence: how many model runs took each branch of the receiver automaton; which were never taken"""
+    dist["receiver_branches"] = dict(sorted(BRANCHES.items()))
+    dist["receiver_branches_never_taken"] = [t for t in EXPECTED_BRANCHES if t not in BRANCHES and t not in exclude]
+    dist["receiver_branches_unexpected"] = [t for t in BRANCHES if t not in EXPECTED_BRANCHES]
+
+
 def parse_model(line):
     """answer of `pdshmodel pcp sink|rt`"""
     f = fields(line)
     if "replies" not in f:
         raise RuntimeError("model answer: " + line[:300])
+    for t in f.get("cov", "-").split(","):
+        if t != "-":
+            BRANCHES[t] = BRANCHES.get(t, 0) + 1
     fs = {}
     if f["fs"] != "-":
         for e in f["fs"].split(","):
